@@ -74,5 +74,6 @@ SPEC = dict(
         "Store/ConcAtomic.v models the mutators' disk effects (create ODS/Q4, link; unlink, delete) under an exclusive per-stripe lock; the caches in front of the files and the hash-stripe lock are not in that model; the file system is a map with atomic single effects",
         "Go scheduling: which interleavings occur is explored by stress (seed-derived scripts, directed gates), not proved and not replayable step by step; a replay re-runs the round's scripts up to 300 times; data-race freedom = no report of the Go race detector during TestVerifC08Race (the same rounds in a binary built with -race; at its start a child process commits a deliberate race to prove that reports reach the harness); all puts of a height pass one square object whose roots were computed first (as callers of Put do), so the published in-memory accessor is read-only",
         "the watchdog reports a call into the store (operation, read through an accessor, Close) that has not returned after 40 s (the cache force-closes after 60 s); only calls into the code under test are timed, never the harness's own waits; file descriptors are counted in /proc/self/fd by path prefix of the store directory once the store is at rest: every operation returned, every accessor closed, every block removed and no goroutine with a frame of the store packages left (the eviction goroutines `go ac.close()` are waited for, up to 90 s, then reported as evict-hangs); a descriptor still open then was dropped without Close(): sig fd-leak-until-gc if a garbage collection (os.File finalizer) releases it, fd-leak otherwise; for the micro rounds, which share one store per cache configuration so that content carries over, the count is taken once after the last of them",
+        "observation, not counted as a violation: proofsCache.AxisRoots hands the SAME *share.AxisRoots to every holder of a cached accessor, and AxisRoots.Hash()/Equals() (celestia-app DataAvailabilityHeader) memoize the hash inside that value without synchronisation, so two holders that hash the returned roots race (race detector report in da.(*DataAvailabilityHeader).Hash); no caller inside celestia-node hashes roots obtained from an accessor, and the harness compares them field by field",
     ],
 )
